@@ -50,6 +50,8 @@ ASSUME = ["the program under test is compiled and create()d with a large budget;
           "sizes are checked for the value on top of the stack at every instruction boundary and for everything reachable at the end of "
           "the evaluation, not for values buried deeper in the stack in between",
           "class instances have no configured size limit",
+          "on the stack only values of the running function's own frame are judged: scratch buffers an efun parks below its callback's frame "
+          "(filter()'s flag string) are not LPC values",
           "the text of a driver error message (the value catch yields) is not judged against MaxStringLength: it is not built by an operator or efun"]
 
 
